@@ -173,7 +173,32 @@ LoopShadow ==
             SIf(<<EBool(TRUE)>>, <<<<SFor("k", "num", <<Num(2)>>, <<SAsg(A, EBin("+", A, K))>>), SAsg(A, EBin("+", EBin("*", A, Num(10)), K))>>>>, <<>>), SInfer("r", K)>>),
        P1(<<SInfer("acc", Num(0)), SFor("k", "num", <<Num(2)>>, <<SFor("k", "num", <<Num(3)>>, <<SAsg(A, EBin("+", A, K))>>), SAsg(A, EBin("+", EBin("*", A, Num(10)), K))>>)>>) }
 
+\* a block that first READS an outer variable and then declares one of that name: the outer one is unchanged after the block
+ReadThenShadow ==
+  LET Xn == EVar("x", T_num)   Ac == EVar("acc", T_num)   Lm == EVar("limit", T_num)
+  IN { P1(<<SInfer("x", Num(1)), SInfer("acc", Num(0)), SIf(<<EBool(TRUE)>>, <<<<SInfer("y", EBin("+", Xn, Num(1))), SInfer("x", EBin("*", EVar("y", T_num), Num(2))), SAsg(Ac, Xn)>>>>, <<>>), SInfer("r", Xn)>>),
+       P1(<<SInfer("limit", Num(10)), SInfer("acc", Num(0)),
+            SFor("i", "num", <<Num(3)>>, <<SInfer("step", EBin("/", Lm, Num(5))), SInfer("limit", EBin("*", EVar("step", T_num), EVar("i", T_num))), SAsg(Ac, EBin("+", Ac, Lm))>>), SInfer("r", Lm)>>),
+       P1(<<SInfer("x", Num(1)), SInfer("acc", Num(0)), SInfer("w", Num(0)),
+            SWhile(EBin("<", EVar("w", T_num), Num(2)), <<SAsg(EVar("w", T_num), EBin("+", EVar("w", T_num), Num(1))), SAsg(Ac, EBin("+", Ac, Xn)), SInfer("x", Num(50)), SAsg(Ac, EBin("+", Ac, Xn))>>), SInfer("r", Xn)>>),
+       P1(<<SInfer("x", Num(1)), SInfer("acc", Num(0)),
+            SIf(<<EBin(">", Xn, Num(5)), EBin(">", Xn, Num(0))>>, <<<<SAsg(Ac, Num(1))>>, <<SAsg(Ac, Xn), SInfer("x", Num(7)), SIf(<<EBool(TRUE)>>, <<<<SAsg(Ac, EBin("+", Ac, Xn)), SInfer("x", Num(9)), SAsg(Ac, EBin("+", Ac, Xn))>>>>, <<>>)>>>>, <<>>), SInfer("r", Xn)>>) }
+\* a branch of an if / else-if / else statement that ENDS with a nested if-break (or a bare break), inside a loop
+BreakAtBranchEnd ==
+  LET Iv == EVar("i", T_num)   Ev == EVar("evens", T_num)   Od == EVar("odds", T_num)
+      Body(cut, els) == <<SIf(<<EBin("==", EBin("%", Iv, Num(2)), Num(0))>>,
+                              <<<<SAsg(Ev, EBin("+", Ev, Num(1))), SIf(<<EBin(">", Iv, Num(cut))>>, <<<<SBrk>>>>, <<>>)>>>>, els)>>
+  IN { P1(<<SInfer("evens", Num(0)), SInfer("odds", Num(0)), SFor("i", "num", <<Num(7)>>, Body(cut, <<<<SAsg(Od, EBin("+", Od, Num(1)))>>>>)), SInfer("done", EBool(TRUE))>>) : cut \in {3, 10} }
+     \cup { P1(<<SInfer("evens", Num(0)), SInfer("odds", Num(0)), SInfer("i", Num(0)),
+                 SWhile(EBin("<", Iv, Num(7)), <<SAsg(Iv, EBin("+", Iv, Num(1)))>> \o Body(4, <<<<SAsg(Od, EBin("+", Od, Num(1)))>>>>)), SInfer("done", EBool(TRUE))>>),
+            P1(<<SInfer("evens", Num(0)), SInfer("odds", Num(0)),
+                 SFor("i", "num", <<Num(7)>>, <<SIf(<<EBin("==", Iv, Num(9)), EBin("==", EBin("%", Iv, Num(2)), Num(0))>>,
+                                                    <<<<SAsg(Od, Num(100))>>, <<SAsg(Ev, EBin("+", Ev, Num(1))), SIf(<<EBin("==", Iv, Num(4))>>, <<<<SBrk>>>>, <<>>)>>>>,
+                                                    <<<<SAsg(Od, EBin("+", Od, Num(1)))>>>>)>>), SInfer("done", EBool(TRUE))>>) }
+
 FamCases == {MkCase("FamCompile", "expr", R(e)) : e \in Exprs \cup ArrExprs} \cup {MkCase("FamCompile", "constant-clash", p) : p \in ClashProgs}
+            \cup {MkCase("FamCompile", "read-then-shadow", p) : p \in ReadThenShadow} \cup {MkCase("FamCompile", "break-at-branch-end", p) : p \in BreakAtBranchEnd}
+            \cup {MkCase("FamCompile", "nested-repeat", P1(<<SInfer("a", EBin("*", EArr(<<EArr(<<Num(1)>>)>>), Num(2))), SAsg(EIdx(EIdx(EVar("a", TArr(TArr(T_num))), Num(0)), Num(0)), Num(9))>>))}
             \cup {MkCase("FamCompile", "loop-variable-shadows", p) : p \in LoopShadow}
             \cup {MkCase("FamCompile", "index/arr-read", p) : p \in IdxArrRead} \cup {MkCase("FamCompile", "index/str-read", p) : p \in IdxStrRead}
             \cup {MkCase("FamCompile", "index/ascii-read", p) : p \in IdxAsciiRead} \cup {MkCase("FamCompile", "index/arr-store", p) : p \in IdxArrStore}
